@@ -82,7 +82,7 @@ class Row(Vector):
 	We deliberately bypass Vector.__init__ to avoid O(N) scans, 
 	fingerprinting, and alias tracking during iteration.
 	"""
-	__slots__ = ('_raw_cols', '_column_map', '_index', '_dtype')
+	__slots__ = ('_raw_cols', '_names', '_column_map', '_index', '_dtype')
 	
 	def __new__(cls, table, index=0):
 		# Bypass Vector.__new__ entirely.
@@ -92,6 +92,7 @@ class Row(Vector):
 	def __init__(self, table, index=0):
 		# SNAPSHOT: Grab raw column lists for speed
 		self._raw_cols = [col._underlying for col in table._underlying]
+		self._names = [col._name for col in table._underlying]
 		self._column_map = table._current_column_map()
 		self._index = index
 		
@@ -176,8 +177,21 @@ class Row(Vector):
 			 return self._raw_cols[key][self._index]
 		
 		if type(key) is str:
-			 return getattr(self, key)
-			 
+			# a column of the table, resolved like table[key]: the exact stored name first (first
+			# occurrence), then the accessor names - never a method or attribute of the Row itself
+			col_idx = None
+			for i, name in enumerate(self._names):
+				if name == key:
+					col_idx = i
+					break
+			if col_idx is None:
+				col_idx = self._column_map.get(key)
+			if col_idx is None:
+				col_idx = self._column_map.get(key.lower())
+			if col_idx is None:
+				raise SerifKeyError(f"Column '{key}' not found")
+			return self._raw_cols[col_idx][self._index]
+
 		# Fallback to standard vector slicing/masking
 		return super().__getitem__(key)
 
